@@ -93,7 +93,13 @@ class Version(object):
         else:
             version = f'{self.upstream}'
 
-        if self.revision not in (None, '0'):
+        # a zero revision is implied and elided unless this would change how the
+        # version string splits or validates when parsed back
+        if self.revision is not None and (
+            self.revision != '0'
+            or '-' in version
+            or not _is_valid_version(version)
+        ):
             version += f'-{self.revision}'
 
         return version
